@@ -47,10 +47,11 @@ PROPS = {
     },
     "C05": {
         "level": "exploration",
-        "steps": [("hv", "C05", {"_scale": 4.0}), ("hv", "C05", {"mode": "threads", "_jobs": 2, "_tag": "C05threads"}), ("py", "c05proc", "run"), ("py", "san", "tsan", "thorough_only")],
+        "steps": [("hv", "C05", {"_scale": 4.0}), ("hv", "C05", {"mode": "threads", "_jobs": 2, "_tag": "C05threads"}), ("py", "c05proc", "run"), ("py", "lsx", "run_c05"), ("py", "san", "tsan", "thorough_only")],
         "rule": "histories of (set/unset rule | lint(doc, plain|markdown)) on one long-lived LintGroup or harper_wasm::Linter, documents assembled from a small clause pool so "
                 "that the chunk cache and the word cache are hit constantly (hook counters prove it), each step compared with a freshly built linter of the same configuration; the "
-                "same documents on 16 threads in different orders and one linter moved across threads vs a single-thread run; two processes byte-for-byte; thorough adds an "
+                "same documents on 16 threads in different orders and one linter moved across threads vs a single-thread run; two processes byte-for-byte; harper-ls: didChange histories on one long-lived document (texts from a small clause pool, fixed dialect and rule switches), every publish "
+                "compared with the library's lints for that text; thorough adds an "
                 "eviction run (12 000 distinct chunks) and the TSan build; non-trivial = history with >= 1 chunk-cache hit; distinct = history seed",
         "assumptions": ["hash collisions in the cache key (2^-64) ignored", "only caches reachable through LintGroup / harper_wasm::Linter"],
     },
